@@ -563,6 +563,10 @@ func TestPropAdminAndTraffic(t *testing.T) {
 			}
 		}
 		c.Steps = append(c.Steps, "!plain "+hex.EncodeToString([]byte(genPlain(t))))
+		if rapid.IntRange(0, 2).Draw(t, "concurrent-connections") > 0 {
+			// several input connections at once, each bringing its own fresh names
+			c.Steps = append(c.Steps, fmt.Sprintf("!plainN %d %d %s", rapid.IntRange(2, 8).Draw(t, "nconn"), rapid.SampledFrom([]int{5, 40, 150}).Draw(t, "reps"), hex.EncodeToString([]byte(genPlain(t)))))
+		}
 		c.Steps = append(c.Steps, "!view")
 		c.SettleMs = rapid.SampledFrom([]int{20, 100, 300}).Draw(t, "settle")
 		rep, died, diag, err := apply(c)
@@ -597,7 +601,7 @@ func TestPropAdminAndTraffic(t *testing.T) {
 		if died {
 			t.Fatalf("the relay process died while handling this sequence of admin commands / configuration / traffic:\n  %s\n%s", strings.Join(c.Steps, "\n  "), diag)
 		}
-		rec.Case(strings.Join(c.Steps, " | "), rep.Accepted >= 3, fmt.Sprintf("accepted>=3=%v", rep.Accepted >= 3), fmt.Sprintf("rejected>0=%v", rep.Rejected > 0), fmt.Sprintf("targeted-single-parameter=%v", targeted))
+		rec.Case(strings.Join(c.Steps, " | "), rep.Accepted >= 3, fmt.Sprintf("accepted>=3=%v", rep.Accepted >= 3), fmt.Sprintf("rejected>0=%v", rep.Rejected > 0), fmt.Sprintf("targeted-single-parameter=%v", targeted), fmt.Sprintf("concurrent-input-connections=%v", strings.Contains(strings.Join(c.Steps, " "), "!plainN ")))
 		rec.Num("steps", int64(len(c.Steps)))
 		rec.Num("accepted", int64(rep.Accepted))
 		rec.Num("rejected", int64(rep.Rejected))
